@@ -7,7 +7,7 @@ VERIF = os.path.dirname(os.path.dirname(os.path.abspath(__file__)))
 
 COMMON_NOTE = (
     "Explores the real pygopherd code imported from /repo's working tree through an in-process connection "
-    "(fake socket, unbound server); trusted base: CPython, the harness seams in pgmc/rig.py, the reference "
+    "(fake socket, unbound server) and, for C02, C04 and C14, through real sockets on real threading and forking servers; trusted base: CPython, the harness seams in pgmc/rig.py, the reference "
     "models/validators in pgmc/ref.py and pgmc/parsers.py. Says nothing about inputs outside the stated alphabets/bounds."
 )
 
@@ -50,14 +50,14 @@ CHECKS = {
         design_ref="DESIGN.md 3/C15",
     ),
     "C19": dict(
-        technique="exhaustive enumeration of configurations x single-fault injection at every privileged call of the recorded start-up trace, judged by a reference model of the required order",
+        technique="exhaustive enumeration of configurations (options, spellings of the boolean, effective uid, detach, start directory) x single-fault injection at every privileged call of the recorded start-up trace, judged by a reference model of the required order",
         text="For all 8 combinations of usechroot/setuid/setgid, for init_security() alone and for the whole initialize() (real bind on port 0, TLS off and on), start-up is run with every privileged entry point substituted by a recorder, "
              "once without fault and once with each occurrence of each privileged call (and of the bind and the certificate load) raising. The trace must satisfy: bind and key load before any privilege is given up; chroot first, root rewritten to '/', working directory moved inside; "
              "setgroups(()) < setregid < setreuid; nothing unconfigured; a failing step propagates, nothing privileged follows it and no server is returned.",
         design_ref="DESIGN.md 3/C19",
     ),
     "C14": dict(
-        technique="preemption-bounded stateless DFS over thread interleavings of real concurrent connection handlers under a cooperative (baton) scheduler with sys.settrace line-level scheduling points; exhaustive enumeration of completion orders x reaping points on real forking/threading servers",
+        technique="preemption-bounded stateless DFS over thread interleavings of real concurrent connection handlers under a cooperative (baton) scheduler with sys.settrace line-level scheduling points; exhaustive enumeration of completion orders x reaping points, and of stalled-client situations (silent / half a line / unfinished headers, with and without TLS and a timeout), on real forking/threading servers",
         text="All unordered pairs (thorough: also triples) of a 10-request menu chosen to collide run concurrently through the real connection handler, from a cold start (lazily initialised module tables reset) and warm, "
              "under every interleaving with <=2 (quick) / <=3 (thorough) preemptions; scheduling points at every cache-file stat/open/read/write-chunk/close, directory enumeration, and every traced line of the lazy initialisers, the block copy loop and the HTTP header cache. "
              "Each client must receive exactly its sequential answer. A real ForkingTCPServer and ThreadingTCPServer with three clients are driven through all 6 completion orders x service_actions() positions: answers, listener liveness and an empty child table are asserted.",
@@ -88,7 +88,7 @@ CHECKS = {
         design_ref="DESIGN.md 3/C07",
     ),
     "C04": dict(
-        technique="bounded-exhaustive enumeration of documents (content class x size x name) x protocols x handler lists, plus deviation-bounded DFS over short-read patterns of the VFS file object, on the implementation",
+        technique="bounded-exhaustive enumeration of documents (content class x size x name) x protocols x handler lists, plus deviation-bounded DFS over short-read patterns of the VFS file object, plus an exhaustive TLS-versus-plaintext differential over real sockets (object kind x protocol pair x server type), on the implementation",
         text="Every document of the cross product content classes x sizes around each multiple of the 4096-byte copy block x names (spaces, reserved URL characters, non-UTF-8, encodings, unknown and upper-case extensions) is fetched through 10 protocol forms under both handler lists; "
              "the body must equal the file (gunzip/bunzip2 of it where decompression is configured), WAP's WML must invert line by line to the source, a Gopher+ length must equal the bytes that follow, HEAD must equal GET's headers with no body, "
              "and the advertised MIME type must equal an independent reading of conf/mime.types and the encoding map. All patterns of short reads (n / n-1 / 1 bytes per read) within the deviation bound are explored for three file sizes x five protocols.",
@@ -102,7 +102,7 @@ CHECKS = {
         design_ref="DESIGN.md 3/C10",
     ),
     "C12": dict(
-        technique="exhaustive fault enumeration (fault kind x position x singles and pairs x protocols x directory handlers) on the implementation, differential against the fault-free listing",
+        technique="exhaustive fault enumeration (fault kind x position x singles and pairs x protocols x directory handlers; occurrence-indexed stat failures at the os seam; special files in every metadata position) on the implementation, differential against the fault-free listing",
         text="Every single and every pair of unservable entries (real dangling and self-referential links, FIFOs, UNIX sockets, names containing '..', directories whose children the filter rejects; seam-injected vanished entries and EACCES) "
              "at every sort position of a 4-entry directory, listed through 7 protocols by both directory handlers and inside ZIP archives; the listing must succeed and, with the faulty names removed, equal the fault-free listing.",
         design_ref="DESIGN.md 3/C12",
@@ -121,7 +121,7 @@ CHECKS = {
         design_ref="DESIGN.md 3/C11",
     ),
     "C01": dict(
-        technique="bounded-exhaustive enumeration of request lines x handler lists x working directories, two-world non-interference differential + audit-event monitor on the implementation",
+        technique="bounded-exhaustive enumeration of request lines x handler lists x working directories, two-world non-interference differential + audit-event monitor on the implementation; exhaustive enumeration of start-up modes (detach x relative root x launch directory) through the real initialize()",
         text="Every request of the bounded alphabet (13 protocol wrappers x 4 percent-encoding layers x paths of <=3 segments over traversal tokens, ZIP/virtual suffixes, NUL, backslashes) is served by the real server "
              "under the shipped and the full handler list and three working directories, twice, with two different states of everything outside the root (including siblings whose names start like the root); "
              "responses must be byte-identical, no open/listdir/exec may reach an object outside the root, planted canary bytes must never appear, and climbing selectors must be answered not-found.",
